@@ -2156,6 +2156,71 @@ Proof.
   split; vm_compute; reflexivity.
 Qed.
 
+(* ================================================================== *)
+(* A3 for ILU(0) over NON-COMMUTING values, factor relation proved (WZ3).  AmgBlockCycleSym3IluFactorsNc.v: the ILU(0)
+   factors of a hermitian matrix over a non-commutative ring (sinv a right inverse or the default 0) with strictly sorted
+   rows, stored diagonal, symmetric pattern and invertible pivots satisfy L_ij = (D_j U_ji)^H, D_j^H = D_j -- the entrywise
+   condition of C02_ilu0_good5_from_factors is a theorem, and good5 (R5Ilu0 w) A follows from structural conditions. *)
+From Amgcl Require Import AmgBlockCycleSym3Ilu AmgBlockCycleSym3IluFactorsNc.
+
+Theorem C02_ilu0_factors_hermitian_nc {S : Scalar} (Hnc : ncring_theory S) (Seqb : seqb_spec S)
+  (Hinv : forall x : S, sinv x <> s0 -> x * sinv x = s1)
+  (adj_add : forall a b : S, sadj (a + b) = sadj a + sadj b)
+  (adj_mul : forall a b : S, sadj (a * b) = sadj b * sadj a)
+  (adj_inv : forall a : S, sadj (sadj a) = a)
+  (A : crs S) (junk : vec S) (L U : crs S) (D : vec S) :
+  wf A = true -> ncols A = nrows A ->
+  (forall i, i < nrows A -> sorted_strict (nth i (rows A) []) = true) -> has_diag A = true ->
+  ilu0 A junk = Ok (L, U, D) ->
+  (forall k, k < nrows A -> vget D k <> s0 /\ sinv (vget D k) <> s0) ->
+  (forall i j, i < nrows A -> j < nrows A -> mget A j i = sadj (mget A i j)) ->
+  (forall i j, i < nrows A -> j < nrows A -> has_col j (nth i (rows A) []) = has_col i (nth j (rows A) [])) ->
+  (forall i j, i < nrows A -> j < nrows A -> mget L i j = sadj (vget D j * mget U j i)) /\
+  (forall j, j < nrows A -> sadj (vget D j) = vget D j).
+Proof. exact (nc_ilu0_factors_herm Hnc Seqb Hinv adj_add adj_mul adj_inv A junk L U D). Qed.
+Print Assumptions C02_ilu0_factors_hermitian_nc.
+
+Theorem C02_ilu0_good5_nc {S : Scalar} (Hnc : ncring_theory S) (Seqb : seqb_spec S)
+  (Hinv : forall x : S, sinv x <> s0 -> x * sinv x = s1)
+  (adj_add : forall a b : S, sadj (a + b) = sadj a + sadj b)
+  (adj_mul : forall a b : S, sadj (a * b) = sadj b * sadj a)
+  (adj_inv : forall a : S, sadj (sadj a) = a) (w : S) (A : crs S) :
+  wf A = true -> herm_mat (nrows A) A -> ilu0_level_ok_nc A ->
+  sadj w = w -> (forall c : S, w * c = c * w) -> good5 (R5Ilu0 w) A.
+Proof. exact (nc_ilu0_good5 Hnc Seqb Hinv adj_add adj_mul adj_inv w A). Qed.
+Print Assumptions C02_ilu0_good5_nc.
+
+(* static_matrix<T,b,b>, T a field: hierarchies of amg_init smoothed by ilu0 (smoother on the coarsest level): the level
+   condition is structural (sorted rows, stored diagonal, symmetric pattern, invertible pivots) *)
+Theorem C02_apply_symmetric_blocks_ilu0_structural (S0 : Scalar) (b : nat) (Sft : Sfield S0) (Seqb0 : seqb_spec S0)
+  (sinv_0 : sinv (@s0 S0) = s0) (Hb : 0 < b)
+  (sadj_add0 : forall x y : S0, sadj (x + y) = sadj x + sadj y)
+  (sadj_mul0 : forall x y : S0, sadj (x * y) = sadj x * sadj y)
+  (sadj_invol0 : forall x : S0, sadj (sadj x) = x)
+  (w : BlockS S0 b) ce ml (sc : option (BlockS S0 b)) ts (M : crs (BlockS S0 b)) k nc pc :
+  sadj w = w -> (forall c : BlockS S0 b, w * c = c * w) ->
+  scale_herm sc -> wf M = true -> herm_mat (nrows M) M -> ts_herm (nrows M) ts ->
+  (forall l, In l (amg_init ce false ml (coarse_op_of sc) ts M) -> ilu0_level_ok_nc (S := BlockS S0 b) (ld_A l)) ->
+  let lvls := block_levels S0 b (R5Ilu0 w) (amg_init ce false ml (coarse_op_of sc) ts M) in
+  forall scr1 scr2 f g x1 x2,
+  scratch_wf lvls scr1 -> scratch_wf lvls scr2 ->
+  length f = nrows M -> length g = nrows M -> length x1 = nrows M -> length x2 = nrows M ->
+  ipH (S := BlockS S0 b) (nrows M) (fst (apply k k nc (Datatypes.S pc) lvls scr1 f x1)) g =
+  ipH (S := BlockS S0 b) (nrows M) f (fst (apply k k nc (Datatypes.S pc) lvls scr2 g x2)).
+Proof.
+  exact (block_apply_herm_ilu0_structural S0 b Sft Seqb0 sinv_0 Hb sadj_add0 sadj_mul0 sadj_invol0 w ce ml sc ts M k nc pc).
+Qed.
+Print Assumptions C02_apply_symmetric_blocks_ilu0_structural.
+
+(* non-vacuity: the structural level condition holds on both levels of the example hierarchy (non-commuting 2 x 2 blocks) *)
+Example C02_example_blocks_ilu0_structural_hypotheses :
+  forall l, In l exBH' -> ilu0_level_ok_nc (S := B2) (ld_A l).
+Proof.
+  assert (H : forallb (fun l => ilu0_level_okb_nc (S := B2) (ld_A l)) exBH' = true) by (vm_compute; reflexivity).
+  intros l Hl. rewrite forallb_forall in H.
+  apply (ilu0_level_okb_nc_ok (S := B2) (BlockS_eqb QcS 2 QcS_eqb)), (H l Hl).
+Qed.
+
 (* FULL STATEMENT (unproved part), as it stands now (WZ3; supersedes the two FULL STATEMENT comments on block symmetry above).
    Statement: for S0 a commutative ring with an additive, multiplicative, involutive conjugation, b > 0, M : crs (BlockS S0 b)
    hermitian, transfer operators with R_l = adjoint P_l, scale_herm sc, k5 ANY of damped_jacobi, spai0, gauss_seidel, ilu0,
@@ -2168,16 +2233,17 @@ Qed.
    pivot (C02_ilu0_factors_symmetric: L_ij = D_j U_ji; C02_ilu0_consistent_self_adjoint, C02_apply_symmetric_ilu0[_Qc]); exact
    coarse solve symmetric (earlier).
    PROVED, non-commuting block values, direct_coarse = false: Jacobi / SPAI-0 / Gauss-Seidel (earlier);
-   ilu0 with the side condition reduced from an operator statement to the ENTRYWISE factor relation L_ij = (D_j U_ji)^H,
-   D_j^H = D_j on the computed factors (C02_ilu_solve_hermitian_blocks, C02_ilu0_good5_from_factors,
-   C02_apply_symmetric_blocks_ilu0 with the boolean check ilu0_level_hermb); chebyshev with the side condition reduced to:
+   ilu0: the triangular solve is hermitian given the ENTRYWISE factor relation L_ij = (D_j U_ji)^H, D_j^H = D_j
+   (C02_ilu_solve_hermitian_blocks, C02_ilu0_good5_from_factors, C02_apply_symmetric_blocks_ilu0 with the boolean check
+   ilu0_level_hermb), and that relation is PROVED for hermitian matrices over a non-commutative ring with sorted rows, stored
+   diagonal, symmetric pattern and invertible pivots (C02_ilu0_factors_hermitian_nc, C02_ilu0_good5_nc), so for
+   static_matrix<T,b,b> over a field no factor hypothesis is left (C02_apply_symmetric_blocks_ilu0_structural; level
+   condition ilu0_level_ok_nc, boolean form ilu0_level_okb_nc, holds on the example: C02_example_blocks_ilu0_structural_hypotheses);
+   chebyshev with the side condition reduced to:
    alpha_k, beta_k central and hermitian, scaling entries hermitian (C02_chebyshev_hermitian_nc,
    C02_apply_symmetric_blocks_chebyshev[_Qc] with the boolean check cheby_coefs_hermb).  Both side conditions are finite and hold on
    the example hierarchy of non-commuting 2 x 2 blocks (C02_example_blocks_ilu0_symmetric, C02_example_blocks_chebyshev_symmetric).
-   NOT proved: (a'') the factor relation L_ij = (D_j U_ji)^H for the ILU(0) factors of a hermitian BLOCK matrix (the induction of
-   AmgBlockCycleSym3IluFactors.v uses commutativity in the step  L_ik U_kj = D_k U_ki U_kj = L_jk U_ki;  over blocks it needs
-   (D_k U_ki)^H U_kj = ((D_k U_kj)^H U_ki)^H and an exactness theorem on the pattern for non-commuting values in the
-   form used here); that alpha_k, beta_k of cheby_coef are embedded scalars whenever lower, higher and the Gershgorin bound are
+   NOT proved: (a'') that alpha_k, beta_k of cheby_coef are embedded scalars whenever lower, higher and the Gershgorin bound are
    (closure of the embedded scalars under + * - sinv; true, not formalised; checked per instance by cheby_coefs_hermb).
    (c) direct_coarse = true for block values: the hypothesis solve_symH (nrows A) (mk_solve_block S0 b A) of
    C02_apply_symmetric_blocks_full is UNSATISFIABLE for b >= 2 (C02_block_coarse_solve_not_hermitian_on_general_blocks): it
